@@ -228,8 +228,7 @@ class CharacterClass(MutableSet[int]):
                     if self.negative:
                         self.negative |= value()
                 else:
-                    self.positive &= value()
-                    self.negative.clear()
+                    self._retain(value())
 
             elif part.startswith('\\p') or part.startswith('\\P'):
                 if self._re_unicode_ref.search(part) is None:
@@ -245,10 +244,22 @@ class CharacterClass(MutableSet[int]):
                 else:
                     if part.startswith('\\p'):
                         self.positive -= subset
+                        if self.negative:
+                            self.negative |= subset
                     else:
-                        self.negative -= subset
+                        self._retain(subset)
             else:
                 self.positive.difference_update(part)
+                if self.negative:
+                    self.negative.update(part)
+
+    def _retain(self, subset: UnicodeSubset) -> None:
+        # Discarding a negated subset means to intersect the class with the subset:
+        # (positive | ~negative) & subset == (positive & subset) | (subset - negative)
+        self.positive -= self.positive - subset
+        if self.negative:
+            self.positive |= subset - self.negative
+            self.negative.clear()
 
     def clear(self) -> None:
         self.positive.clear()
